@@ -24,6 +24,7 @@ import (
 //   wP<j>  command j is delivered and its admission is HELD inside `admit`, right after the closing
 //          check (schedule point admit:checked; in the library this is inside the critical section)
 //   wG<j>  the held admission goes on: the handler parks at handler:start
+//   wO<j>  the connection of command j sends the header of an oversized message and stalls in its body
 //   cT<i>  closer i tries to return now (cT<i>:ret) - or cannot yet (cT<i>:no), which is no error
 // A closer started (cS) while an admission is held cannot enter its critical section: cS<i>:blk;
 // it completes by itself as soon as the admission is let go.
@@ -39,17 +40,17 @@ func goid() int64 {
 }
 
 type closeCtl struct {
-	mu      sync.Mutex
-	cond    *sync.Cond
-	role    map[int64]string // goid -> "c<i>" | "w<conn>"
-	parked  map[string]string
-	release map[string]string // role -> point it may pass
-	clock   int
-	started int // handlers started
-	ended   int
-	returns int // Close calls returned
-	viol    []string
-	pendingConn int // connection whose goroutine is expected to show up next (-1: none)
+	mu          sync.Mutex
+	cond        *sync.Cond
+	role        map[int64]string // goid -> "c<i>" | "w<conn>"
+	parked      map[string]string
+	release     map[string]string // role -> point it may pass
+	clock       int
+	started     int // handlers started
+	ended       int
+	returns     int // Close calls returned
+	viol        []string
+	pendingConn int             // connection whose goroutine is expected to show up next (-1: none)
 	holdChecked map[string]bool // roles whose admission is to be held at admit:checked
 }
 
@@ -219,7 +220,7 @@ func runClose(cs *Case) *Result {
 	var ev []string
 	hang := false
 	held := map[string]bool{} // worker roles held at admit:checked
-	var blocked []string     // closers waiting for the mutex meanwhile
+	var blocked []string      // closers waiting for the mutex meanwhile
 	deliver := func(idx int) (string, int) {
 		cm := cmds[idx]
 		role := "w" + strconv.Itoa(cm.conn)
@@ -334,6 +335,26 @@ func runClose(cs *Case) *Result {
 				}
 				if quiet(cm.conn) {
 					out = "ref"
+					break
+				}
+				time.Sleep(50 * time.Microsecond)
+			}
+			ev = append(ev, a+":"+out)
+		case "wO": // the connection stalls in the middle of an oversized message: no command is admitted
+			cm := cmds[idx]
+			ctl.mu.Lock()
+			ctl.pendingConn = cm.conn
+			ctl.mu.Unlock()
+			msg := typedLen('Q', 1<<25, []byte("0123456789abcdef"))
+			conns[cm.conn].mu.Lock()
+			conns[cm.conn].segs = append(conns[cm.conn].segs, msg)
+			conns[cm.conn].cond.Broadcast()
+			conns[cm.conn].mu.Unlock()
+			out := "lost"
+			deadline := time.Now().Add(1500 * time.Millisecond)
+			for time.Now().Before(deadline) {
+				if quiet(cm.conn) {
+					out = "stall"
 					break
 				}
 				time.Sleep(50 * time.Microsecond)
@@ -477,6 +498,10 @@ func genClose(r *rand.Rand, id string) *Case {
 		case 2:
 			c.Extra["closers"] = "1"
 			c.Extra["sched"] = "cS0,wP0,cR0"
+		case 3:
+			// a client stalled inside an oversized message holds no admitted command: Close returns
+			c.Extra["closers"] = "1"
+			c.Extra["sched"] = "wO0,cS0,cR0"
 		default:
 			// the closer tries to return while the admission is still held
 			c.Extra["closers"] = "1"
